@@ -97,8 +97,24 @@ def gen(rng, kind):
                 m2 = bp_mutation(rng, y, names, funcs, sizes, SR)
                 prog.append(m2)
                 muts.append(m2)
+        twin = None
+        if rng.random() < 0.2:
+            # a twin built from the same segments that differs in ONE segment name only: not equal (its description differs)
+            twin = regs.B()
+            k = rng.randrange(sum(1 for o in prog if o[0] == "BInsert" and o[1] == r))
+            j = 0
+            for o in list(prog):
+                if o[0] in ("BInsert", "BSetSR", "BSetMarker") and o[1] == r:
+                    o2 = (o[0], twin) + tuple(o[2:])
+                    if o[0] == "BInsert" and o[3] != "waituntil":
+                        if j == k:
+                            o2 = o2[:6] + ("renamed",)
+                        j += 1
+                    prog.append(o2)
+            prog.insert(len(prog) - sum(1 for o in prog if o[1:2] == (twin,)), ("BNew", twin))
+            prog += [("OBEq", r, twin), ("OBEq", twin, r)]
         prog += [("OBEq", x, y), ("OBEq", y, x), ("OBEq", x, x), ("OBDescr", x), ("OBDescr", y), ("OBForge", x), ("OBForge", y)]
-        return {"prog": prog, "kind": "bp", "muts": [list(map(str, m)) for m in muts], "pair": [x, y]}
+        return {"prog": prog, "kind": "bp", "muts": [list(map(str, m)) for m in muts], "pair": [x, y], "twin": [r, twin] if twin is not None else None}
     chans = rng.sample([1, 2, 3, "A"], rng.randint(1, 2))
     e = regs.E()
     prog = [("ENew", e)]
@@ -197,6 +213,10 @@ def oracle(case, impl):
         out.append("== changed after a read-only query")
     if len(xy) == 4 and (xy[0] is not True or xy[1] is not True):
         out.append(f"two copies of one element compared {xy[0]} before and {xy[1]} after forging one of them (a query)")
+    if case.get("twin"):
+        for op, r in eqs:
+            if sorted(op[1:]) == sorted(case["twin"]) and r is not False:
+                out.append(f"blueprints that differ in one segment name compare {r}")
     descs = [r for op, r in zip(prog, impl) if op[0] == f"O{key}Descr"]
     fk = {"bp": "OBForge", "el": "OEArrays", "seq": "OSForge"}[case["kind"]]
     fs = [r for op, r in zip(prog, impl) if op[0] == fk]
